@@ -64,8 +64,9 @@ MANIFEST = dict(
          "pinned tree: depth_unbounded holds for parse/put_cell/get_as_cell/mark/equal?/Display/Drop along car, for "
          "put_cell and Drop/Clone also along cdr, for transform/compile/free-symbols on nested expressions; the "
          "aborting (function, direction) pairs are open known findings (making the passes iterative is not a small "
-         "fix). OPEN (Definitions in Props/C19.v): get_as_cell/mark through nested vectors, equal? bounded along cdr, "
-         "mark through closure/continuation chains, the run loop adds no native frame. Drop/Clone are not "
+         "fix). Also proved: get_as_cell (exactly 2k+2) and mark (at least 2k+1) through vectors nested k deep; equal? along the cdr "
+         "direction uses at most 3 native frames for lists of ANY length (exactly 3 from length 2), also on improper and unequal flat lists. "
+         "OPEN: mark through closure/continuation chains, quote chains for get_as_cell/mark/equal?, the run loop adds no native frame. Drop/Clone are not "
          "instrumented. Axioms: none declared; Print Assumptions reports the four standard-library real-number axioms "
          "for statements that mention datum/number definitions.",
     technique="Rocq/Coq proof (induction on the nesting of witness families) + depth-counter correspondence + child-process scenario grid")
